@@ -68,6 +68,13 @@ def all_cases(ctx):
         for meth, args in WRITE_ARGS.items():
             for a0 in (None, True, ("e",)):
                 cases.append((meth, args, [a0] + [None] * (n - 1)))
+            # "with the caller's arguments": each argument in turn over boundary values (falsy ones in particular)
+            if n <= 2:
+                for pos in range(len(args)):
+                    for v in (0, None, False, True, b"", "", 1, -1):
+                        if v == args[pos] and type(v) is type(args[pos]):
+                            continue
+                        cases.append((meth, args[:pos] + (v,) + args[pos + 1:], [True] + [None] * (n - 1)))
     return cases
 
 
